@@ -351,12 +351,21 @@ impl Family for AsyncFam {
                 }
                 1 => {
                     if n.set[*g] {
-                        vec![MStep::Cont(n, 0)]
+                        vec![MStep::Cont(n, 2)]
                     } else {
                         vec![]
                     }
                 }
-                _ => vec![],
+                // back at the executor with Pending: suspended until f's waker fires, i.e. f is set
+                // (RESULT_2 false alarm: phases 0<->1 used to cycle, so the model called the
+                // suspended task runnable whenever g was set)
+                _ => {
+                    if n.set[*f] {
+                        vec![MStep::Done(n, AsRes::Unit)]
+                    } else {
+                        vec![]
+                    }
+                }
             },
             AsOp::FlagWaitRacy(f) => {
                 if n.set[*f] {
